@@ -11,7 +11,7 @@ Open Scope string_scope.
 Definition env_density (st ft : option Q) (rho z : list obs) : env :=
   {| e_arr := bind_arr [("inp", rho); ("zinp", z); ("delta", density_delta rho z)];
      e_num := bind_num [("suspect_threshold", st); ("fail_threshold", ft); ("True", Some 1)];
-     e_str := (fun _ => None);
+     e_str := (fun _ => None); e_bool := (fun _ => None);
      e_size := length rho |}.
 
 Theorem skel_density st ft rho z :
